@@ -3,7 +3,7 @@
    products are assembled from.  Part 2 (distributed, composed with the halo exchange of C03) is in
    Dist/ParSpmvProofs.v and stated below once available.
    dot_row dn x n = sum_{c<n} dn c * x_c. *)
-From Raptor Require Import Base.Sums Sparse.Defs Sparse.ConvertProofs Sparse.SpmvProofs Dist.Comm Dist.CommProofs Dist.ParMat Dist.ParSpmvProofs Dist.ParSpmvTProofs.
+From Raptor Require Import Base.Sums Sparse.Defs Sparse.ConvertProofs Sparse.SpmvProofs Dist.Comm Dist.CommProofs Dist.ParMat Dist.ParSpmvProofs Dist.ParSpmvTProofs Sparse.Block Sparse.BlockProofs.
 
 Section C02.
 Variable F : Type.
@@ -126,6 +126,26 @@ Theorem C02_distributed_mult_T_is_global_transpose_product :
                          (seq 0 (length st))).
 Proof. intros. apply (par_mult_T_global F zero one add mul sub opp Fth w st xs bprev N q lc); assumption. Qed.
 
+(* Block formats (BCOO; BSR / BSC through their block triple listing): the block kernels are the scalar kernels of the
+   row-major expansion E of the blocks, E is well formed, and E represents at (I*br + r, J*bc + c) the sum of the
+   (r, c) entries of the stored blocks at block position (I, J).  [bspmv cases of the correspondence check] *)
+Theorem C02_block_kernels br bc (A : coo (list F)) (x b : list F) : coo_wf A ->
+  let E := bcoo_expand zero br bc A in
+  coo_wf E /\
+  (forall I J r c, r < br -> c < bc ->
+     denCoo E (I * br + r) (J * bc + c)
+     = sumf F zero add (map (fun e => nth (r * bc + c) (eval e) zero) (filter (fun e => (erow e =? I) && (ecol e =? J)) (coo_ents A)))) /\
+  (forall i, xat (coo_spmv F zero add mul E x) i = dot (denCoo E i) x (coo_nc E)) /\
+  (coo_nr E <= length b -> forall i, xat (coo_spmv_append F zero add mul E x b) i = add (xat b i) (dot (denCoo E i) x (coo_nc E))) /\
+  (coo_nr E <= length b -> forall i, xat (coo_spmv_append_neg F zero mul sub E x b) i = sub (xat b i) (dot (denCoo E i) x (coo_nc E))) /\
+  (coo_nc E <= length b -> forall j, xat (coo_spmv_append_T F zero add mul E x b) j = add (xat b j) (dot (fun i => denCoo E i j) x (coo_nr E))) /\
+  (coo_nc E <= length b -> forall j, xat (coo_spmv_append_neg_T F zero mul sub E x b) j = sub (xat b j) (dot (fun i => denCoo E i j) x (coo_nr E))).
+Proof.
+  intros H E. split; [apply bcoo_expand_wf; exact H|]. split.
+  - intros. apply (bcoo_expand_den F zero one add mul sub opp Fth); assumption.
+  - exact (block_spmv_kernels F zero one add mul sub opp Fth br bc A x b H).
+Qed.
+
 End C02.
 
 Print Assumptions C02_coo_kernels.
@@ -134,3 +154,4 @@ Print Assumptions C02_csc_kernels.
 Print Assumptions C02_distributed_mult_is_global_product.
 Print Assumptions C02_distributed_mult_append_and_residual.
 Print Assumptions C02_distributed_mult_T_is_global_transpose_product.
+Print Assumptions C02_block_kernels.
